@@ -167,19 +167,35 @@ fn read_body_port_message<'n>(
         return Err(WriterError::NodeNotFound("operation_name".to_string()));
     };
 
-    // if there are no parts defined we assume that the message is the same as the operation name
+    // the parts that the sibling soap:header elements bind are not part of the body
+    let header_parts: Vec<&str> = node
+        .parent()
+        .map(|p| {
+            p.children()
+                .filter(|n| n.is_element() && n.tag_name().name() == "header")
+                .filter_map(|n| n.attribute("part"))
+                .collect()
+        })
+        .unwrap_or_default();
+
+    // if there are no parts defined the body is the message part that is not bound as a header
     let (_name, (rust_node, _namespace)) = match in_or_out {
         InputOrOutput::Input => port_operation
             .input
             .message
             .parts
             .iter()
-            .next()
+            .find(|(name, _)| !header_parts.contains(&name.as_str()))
             .ok_or(WriterError::NodeNotFound(operation_name.to_string()))?,
         InputOrOutput::Output => port_operation
             .output
             .as_ref()
-            .and_then(|o| o.message.parts.iter().next())
+            .and_then(|o| {
+                o.message
+                    .parts
+                    .iter()
+                    .find(|(name, _)| !header_parts.contains(&name.as_str()))
+            })
             .ok_or(WriterError::NodeNotFound(operation_name.to_string()))?,
     };
 
